@@ -222,6 +222,100 @@ def _check_case(corr, name, fname, params, tabs, rng=None):
             corr.disagree(dict(inp, path=path), path in impl, path in model, f"path {path} of {name} offered by only one side")
 
 
+def _multi_object_circuits(ctx, corr):
+    """one circuit holding SEVERAL gate objects that share a name and arg_value (class-built controlled gates are all named
+    `_OneControlledGate`; ControlledGate objects differ only in control_value / target gate): each compact propagator must be the
+    documented matrix of ITS OWN gate"""
+    from qutip_qip.circuit import QubitCircuit
+    from qutip_qip.operations import GATE_CLASS_MAP
+    from qutip_qip.operations.gateclass import ControlledGate
+    import qutip_qip.operations as O
+    rng = ctx.rng
+    fam0 = [n for n in ("CX", "CY", "CZ", "CS", "CT", "CNOT", "CSIGN") if n in GATE_CLASS_MAP]
+    fam1 = [n for n in ("CRX", "CRY", "CRZ", "CPHASE") if n in GATE_CLASS_MAP]
+    for rep in range(ctx.n(12, 60)):
+        ang = rng.choice([0.7, -1.25, math.pi / 3])
+        names = [rng.choice(fam0) for _ in range(2)] + [rng.choice(fam1) for _ in range(2)]
+        rng.shuffle(names)
+        qc = QubitCircuit(2)
+        inp = dict(kind="multi_object_circuit", gates=names, angle=ang)
+        corr.count(("multi", tuple(names), ang), nontrivial=True)
+        corr.tally("multi-object-circuit")
+        try:
+            for nm in names:
+                cls = GATE_CLASS_MAP[nm]
+                g = cls(controls=[0], targets=[1], arg_value=ang) if nm in fam1 else cls(controls=[0], targets=[1])
+                qc.add_gate(g)
+            # generic ControlledGate objects that differ only in control_value
+            for cv in (1, 0):
+                qc.add_gate(ControlledGate(controls=[0], targets=[1], control_value=cv, target_gate=O.X))
+            props = [u.full() for u in qc.propagators(expand=False)]
+        except Exception as e:
+            corr.oracle_fail(inp, repr(e), "matrices", f"a circuit of class-built gates raised {type(e).__name__}")
+            continue
+        X = np.array([[0, 1], [1, 0]], dtype=complex)
+        want = [Q.np_gate(nm, [ang] if nm in fam1 else []) for nm in names]
+        want += [np.block([[np.eye(2), np.zeros((2, 2))], [np.zeros((2, 2)), X]]), np.block([[X, np.zeros((2, 2))], [np.zeros((2, 2)), np.eye(2)]])]
+        for k, (got, w) in enumerate(zip(props, want)):
+            if got.shape != w.shape or not np.allclose(got, w, atol=1e-9):
+                corr.oracle_fail(dict(inp, position=k), np.round(got, 6).tolist(), np.round(w, 6).tolist(),
+                                 f"propagator {k} of a circuit of class-built gates differs from that gate's documented matrix")
+
+
+def _angle_container_cases(ctx, corr):
+    """the same angle OBJECT (python float, int, numpy scalar, 0-d numpy array) handed to several paths / several calls:
+    every call must give the documented matrix at the original value and must not change the caller's object"""
+    from qutip_qip.operations import gates as G, Gate, GATE_CLASS_MAP
+    from qutip_qip.circuit import QubitCircuit
+    fns = {"RX": "rx", "RY": "ry", "RZ": "rz", "PHASEGATE": "phasegate", "CPHASE": "cphase", "SWAPalpha": "swapalpha"}
+    for name in ("RX", "RY", "RZ", "PHASEGATE", "R", "CPHASE", "SWAPalpha", "CRX", "MS"):
+        for mk in (lambda v: float(v), lambda v: np.float64(v), lambda v: np.array(v), lambda v: np.array(v, dtype=np.float32).astype(float).reshape(())):
+            theta0 = 0.75
+            th = mk(theta0)
+            phi = mk(0.5)
+            args = (th, phi) if name in ("R", "MS") else (th,)
+            doc = Q.np_gate(name, [0.75, 0.5] if name in ("R", "MS") else [0.75])
+            inp = dict(kind="angle_container", gate=name, container=type(th).__name__ + ("[0-d]" if isinstance(th, np.ndarray) else ""))
+            corr.count(("angle_container", name, inp["container"]), nontrivial=True)
+            corr.tally("angle-container")
+            nq = Q.N_QUBITS[name]
+            nc = Q.N_CONTROLS.get(name, 0)
+            ctr, tgt = (list(range(nc)) or None), list(range(nc, nq))
+            arg = args if len(args) > 1 else args[0]
+            try:
+                mats = []
+                for _ in range(2):
+                    if name == "R":
+                        mats.append(("function", G.qrot(th, phi).full()))
+                    elif name == "MS":
+                        mats.append(("function", G.molmer_sorensen(th, phi).full()))
+                    elif name in fns:
+                        mats.append(("function", getattr(G, fns[name])(th).full()))
+                    try:   # names the generic dispatch does not offer (as in _impl_paths)
+                        mats.append(("dispatch", Gate(name, targets=tgt, controls=ctr, arg_value=arg).get_compact_qobj().full()))
+                    except NotImplementedError:
+                        pass
+                    if name in GATE_CLASS_MAP:
+                        kw = dict(targets=tgt, arg_value=arg)
+                        if nc:
+                            kw["controls"] = ctr
+                        mats.append(("class", GATE_CLASS_MAP[name](**kw).get_compact_qobj().full()))
+                        qc = QubitCircuit(nq)
+                        qc.add_gate(name, targets=tgt, controls=ctr, arg_value=arg)
+                        mats.append(("circuit", qc.propagators(expand=False)[0].full()))
+                        mats.append(("circuit-again", qc.propagators(expand=False)[0].full()))
+            except Exception as e:
+                corr.oracle_fail(inp, repr(e), "matrix", f"{name} with a {inp['container']} angle raised {type(e).__name__}")
+                continue
+            for k, (path, M) in enumerate(mats):
+                if M.shape != doc.shape or not np.allclose(M, doc, atol=1e-6 if "float32" in inp["container"] else 1e-9):
+                    corr.oracle_fail(dict(inp, path=path, call=k), np.round(M, 6).tolist(), np.round(doc, 6).tolist(),
+                                     f"{name} via {path} (call {k} with the same angle object) differs from the documented matrix")
+                    break
+            if abs(float(th) - theta0) > 1e-12 or abs(float(phi) - 0.5) > 1e-12:
+                corr.oracle_fail(inp, [float(th), float(phi)], [theta0, 0.5], f"{name}: the caller's angle object was modified in place")
+
+
 def _controlled_cases(ctx, corr):
     """second sentence of C09: controlled_gate builds the block matrix, for <= 3 controls, all values and placements"""
     from qutip_qip.operations import controlled_gate
@@ -390,6 +484,8 @@ def correspond(ctx):
     _controlled_cases(ctx, corr)
     _controlled_model_cases(ctx, corr, disp)
     _controlled_class_cases(ctx, corr)
+    _multi_object_circuits(ctx, corr)
+    _angle_container_cases(ctx, corr)
     corr.extra["translated"] = {k: (len(v) if isinstance(v, list) else v) for k, v in _gen.items() if k != "class_map"}
     return corr
 
@@ -422,14 +518,22 @@ def search(ctx, broken):
         _POLLUTED[0] = False
     _controlled_cases(T(), c)
     _controlled_class_cases(T(), c)
+    _multi_object_circuits(T(), c)
+    _angle_container_cases(T(), c)
     return c.oracle_failures
 
 
 def replay(ctx, rec):
     inp = rec.get("input", rec)
     c = Corr()
-    if inp.get("kind") == "controlled_gate":
-        return False
+    if inp.get("kind") in ("controlled_gate", "controlled_class", "controlled_model", "multi_object_circuit", "angle_container"):
+        class T:
+            import random as _r
+            rng = _r.Random(0)
+            thorough = False
+            def n(self, q, t): return q
+        (_multi_object_circuits if inp["kind"] == "multi_object_circuit" else _angle_container_cases if inp["kind"] == "angle_container" else _controlled_cases)(T(), c)
+        return bool(c.oracle_failures)
     import random
     if inp.get("after_user_gate_history"):
         _pollute()
